@@ -185,11 +185,18 @@ def gen_psbt(rng, version=None, big=False, rich=True):
             if x not in used:
                 used.add(x)
                 g.append((b"\x01" + x, gen_deriv(rng)))
+                if rng.random() < 0.35:
+                    # the same extended key under another SLIP-132 version prefix is a different (legal) key
+                    y = rng.choice([bytes.fromhex("0488b21e"), bytes.fromhex("049d7cb2"), bytes.fromhex("04b24746"),
+                                    bytes.fromhex("043587cf"), bytes.fromhex("045f1cf6")]) + x[4:]
+                    if y not in used:
+                        used.add(y)
+                        g.append((b"\x01" + y, gen_deriv(rng)))
         if version == 0 and rng.random() < 0.15:
             g.append((b"\xfb", (0).to_bytes(4, "little")))
         g += unknown_pairs(rng, "global")
         rng.shuffle(g)
-    b = gen.build_psbt(tx, version, in_maps, out_maps, g, explicit_seq=rng.random() < 0.7)
+    b = gen.build_psbt(tx, version, in_maps, out_maps, g, explicit_seq=rng.random() < 0.7, rng=rng)
     return {"bytes": b, "version": version, "tx": tx, "in_maps": in_maps, "out_maps": out_maps, "global": g, "prevs": prevs}
 
 
